@@ -97,6 +97,8 @@ def check(ctx, tier):
     report_raw_access(coh, "C10/E2")
     viewrules.step_propagation(ctx, tk, "C10/E2")
     viewrules.column_units(ctx, tk, "C10/E2")
+    from .. import deferred
+    deferred.check(ctx, tk, "C10/E2g", coh)
     from . import C06
     n0 = len(ctx.obligations)
     C06.materialisation_step(ctx, tk, coh)
